@@ -296,6 +296,7 @@ func runC16(w *World, r *Report) {
 	entryPointsKeepNoState(w, r, "C16", allEntryRoots(w), "reachable from an entry point", "an entry point writes package-level storage: what the next call (the next target of this compile, the next request to the library) delivers depends on the calls before it, not only on its own input")
 
 	c16Format(w, r)
+	c16FormatOnlyJudge(w, r)
 	c16Export(w, r)
 	c16Compile(w, r)
 	c16Execute(w, r)
